@@ -4,6 +4,7 @@ import Vorbis.Driver.C14
 import Vorbis.Driver.C04
 import Vorbis.Driver.C02
 import Vorbis.Driver.C15
+import Vorbis.Driver.C11
 /-- `vdriver <stream>`: the executable model, one line in / canonical lines out (DESIGN §3.2). -/
 def main (args : List String) : IO UInt32 := do
   match args with
@@ -13,4 +14,5 @@ def main (args : List String) : IO UInt32 := do
   | ["c04"] => Vorbis.Driver.C04.main; return 0
   | ["c02"] => Vorbis.Driver.C02.main; return 0
   | ["c15"] => Vorbis.Driver.C15.main; return 0
+  | ["c11"] => Vorbis.Driver.C11.main; return 0
   | _ => IO.eprintln "usage: vdriver <stream>"; return 2
